@@ -1,6 +1,8 @@
 package govc
 
 import (
+	"strings"
+	"sort"
 	"fmt"
 	"go/types"
 )
@@ -265,6 +267,22 @@ func (e *Exec) freshRef(st *State, base string) *Term {
 	return r
 }
 
+// freshArray allocates a backing-array id and states that no slice header stored in memory or in the
+// heap refers to it yet (a fresh array is unreachable): needed under quantifiers over stored slices,
+// where the per-load fact "a stored reference was allocated earlier" is not available.
+func (e *Exec) freshArray(st *State, base string, elem types.Type) *Term {
+	r := e.freshRef(st, base)
+	for _, k := range e.prog.arrLeafKeys(memFamily(elem)) {
+		m := st.memMap(k, SInt)
+		a, i := mkVar("a!fr", SInt), mkVar("i!fr", SInt)
+		st.assume(mkForall([]*Term{a, i}, mkNe(mkSelect(mkSelect(m, a), i), r), mkSelect(mkSelect(m, a), i)))
+		h := st.heapMap(k, SInt)
+		x := mkVar("x!fr", SInt)
+		st.assume(mkForall([]*Term{x}, mkNe(mkSelect(h, x), r), mkSelect(h, x)))
+	}
+	return r
+}
+
 // knownRef states that r was allocated before now (or is nil).
 func (e *Exec) knownRef(st *State, r *Term) {
 	st.assume(mkGe(r, tZero))
@@ -322,6 +340,9 @@ func typeIdTerm(t types.Type) *Term { return mkApp("type!"+typeKey(t), SInt) }
 func (e *Exec) zeroValue(st *State, t types.Type) Value {
 	switch reprOf(t) {
 	case rInt, rRef:
+		if et, ok := interiorElem(t); ok {
+			return ptrFromTerm(tZero, et, t)
+		}
 		return Scalar{tZero, t}
 	case rOpaque:
 		// an opaque library struct value: fresh identity (e.g. var buf bytes.Buffer)
@@ -384,4 +405,50 @@ func (e *Exec) fillZero(st *State, elem types.Type, id, from, n *Term) {
 		st.assume(mkForall([]*Term{k}, mkImplies(mkAnd(mkLe(from, k), mkLt(k, mkAdd(from, n))), mkEq(mkSelect(inner, k), z)), mkSelect(inner, k)))
 		st.mem[key] = mkStore(m, id, inner)
 	}
+}
+
+// arrLeafKeys(fam): the heap / memory leaf keys that can hold the backing-array id of a slice whose
+// element family is fam (fields of module structs, at any nesting depth). Computed once per family.
+func (p *Program) arrLeafKeys(fam string) []string {
+	if p.arrKeys == nil {
+		p.arrKeys = map[string][]string{}
+		var walk func(root string, t types.Type, path string, depth int)
+		walk = func(root string, t types.Type, path string, depth int) {
+			if depth > 6 {
+				return
+			}
+			switch reprOf(t) {
+			case rStruct:
+				for _, f := range structFields(t) {
+					walk(root, f.Type(), path+"."+f.Name(), depth+1)
+				}
+			case rSlice:
+				et := t.Underlying().(*types.Slice).Elem()
+				k := memFamily(et)
+				p.arrKeys[k] = append(p.arrKeys[k], root+path+".$arr")
+			}
+		}
+		var paths []string
+		for path := range p.pkgs {
+			paths = append(paths, path)
+		}
+		sort.Strings(paths)
+		for _, path := range paths {
+			if !strings.HasPrefix(path, modulePrefix) {
+				continue
+			}
+			sc := p.pkgs[path].Types.Scope()
+			for _, n := range sc.Names() {
+				tn, ok := sc.Lookup(n).(*types.TypeName)
+				if !ok || reprOf(tn.Type()) != rStruct {
+					continue
+				}
+				if _, isNamed := tn.Type().(*types.Named); !isNamed {
+					continue
+				}
+				walk(typeKey(tn.Type()), tn.Type(), "", 0)
+			}
+		}
+	}
+	return p.arrKeys[fam]
 }
